@@ -110,6 +110,17 @@ theorem own_sum (st : Settings) (posts : List BPost) (hwf : PostsWF posts) (bal 
     intro hp
     exact hn ((hA.keys row.key).mpr hp)
 
+/-- corollary of `rows_exact` in the shape other properties use: no (commodity, account) pair is listed twice -/
+theorem rows_nodup (st : Settings) (posts : List BPost) (hwf : PostsWF posts) (bal : List BalRow)
+    (h : balance st posts = .ok bal) : (bal.map BalRow.key).Nodup :=
+  nodup_of_pairwise_keyLt _ (rows_exact st posts hwf bal h).1
+
+/-- `own_sum` for all rows at once, with the sum written out -/
+theorem own_sum_all (st : Settings) (posts : List BPost) (hwf : PostsWF posts) (bal : List BalRow)
+    (h : balance st posts = .ok bal) :
+    ∀ r ∈ bal, r.own.units = ((posts.filter (fun p => decide (p.key = r.key))).map (·.amount.units)).sum :=
+  fun r hr => own_sum st posts hwf bal h r hr
+
 /-- **gap_zero**: an ancestor that is never posted to has own sum zero. -/
 theorem gap_zero (st : Settings) (posts : List BPost) (hwf : PostsWF posts) (bal : List BalRow)
     (h : balance st posts = .ok bal) (row : BalRow) (hrow : row ∈ bal) (hgap : ¬ Posted posts row.key) :
